@@ -342,7 +342,7 @@ func (b *builder) genValue(label string, ty *Type, depth int, forConst bool) *Va
 		case "i64":
 			return &Value{Kind: "int", I: rapid.SampledFrom([]int64{0, 1, -1, 42, 1 << 40, -(1 << 40), 9223372036854775807, -9223372036854775808}).Draw(t, label+".i")}
 		case "double":
-			return &Value{Kind: "double", D: rapid.SampledFrom([]float64{0, 1.5, -2.25, 3, 1000.125, 1.5e3, 0.001}).Draw(t, label+".d")}
+			return &Value{Kind: "double", D: rapid.SampledFrom([]float64{0, 1.5, -2.25, 3, 1000.125, 1.5e3, 0.001, 0.0000001, 1.23456789, -0.00000075, 6.62607015e-34, 12345678.901234567, 2.5e10, -9.87654321e15}).Draw(t, label+".d")}
 		case "string":
 			return &Value{Kind: "string", S: rapid.SampledFrom(stringValues(b.c)).Draw(t, label+".s")}
 		case "binary":
